@@ -314,10 +314,13 @@ impl Run {
             "wall_s": wall,
             "violations": by_sig.len(),
         });
-        let _ = std::fs::create_dir_all(format!("{}/evidence", self.verif_dir));
-        let epath = format!("{}/evidence/{}.json", self.verif_dir, self.id);
+        // runs against deliberately broken trees (tools/try_patch.sh) set VERIF_EVIDENCE_DIR so that
+        // the committed evidence directory only ever holds records of runs on /repo as it is
+        let edir = std::env::var("VERIF_EVIDENCE_DIR").unwrap_or_else(|_| format!("{}/evidence", self.verif_dir));
+        let _ = std::fs::create_dir_all(&edir);
+        let epath = format!("{}/{}.json", edir, self.id);
         std::fs::write(&epath, serde_json::to_string_pretty(&ev).unwrap()).expect("machinery: cannot write evidence");
-        if self.tier == Tier::Thorough {
+        if self.tier == Tier::Thorough && std::env::var("VERIF_EVIDENCE_DIR").is_err() {
             // keep the last thorough run's evidence next to the (quick) evidence the harness regenerates
             let _ = std::fs::create_dir_all(format!("{}/evidence_thorough", self.verif_dir));
             let _ = std::fs::write(format!("{}/evidence_thorough/{}.json", self.verif_dir, self.id), serde_json::to_string_pretty(&ev).unwrap());
